@@ -209,7 +209,21 @@ CHECKS["C17"] = dict(
     ref="DESIGN.md section 5 C17, section 3.3",
     technique="TLC exhaustive check of both receive algorithms over all bounded chunkings (Segments.tla) + replay through io.Reader and socket pair")
 
+CHECKS["C18"] = dict(
+    engine="msgcache", category="model_checking",
+    note=("Trusted base: TLC (enumeration of histories; the model's decode is the ideal 'reset then append'); the unique-alphabet "
+          "recognition of foreign elements in harness/cmd/msgcache."),
+    text=("MsgCache.tla models the per-type cache of recycled message objects with residual content and the decode discipline; "
+          "TLC enumerates all histories of 4/5 same-type messages with lengths {0,1,3} over two connections (NoCarryOver holds for "
+          "the ideal decode); every history is replayed by raw peers on two connections of one server process, each request using "
+          "an alphabet of its own, so that any element, string byte or payload byte from an earlier message is recognised at the "
+          "backend or in the reply; lazy backend reads expose un-cleared read buffers."),
+    ref="DESIGN.md section 5 C18, section 3.9",
+    technique="TLC enumeration of message histories (MsgCache.tla) + replay with per-request alphabets on two connections")
+
 ENGINES = [
+    {"name": "msgcache", "path": "spec/MsgCache.tla + spec/MC_MsgCache.tla + harness/cmd/msgcache", "serves_properties": ["C18"],
+     "kind_free_text": "histories over recycled objects enumerated by TLC; replay with unique alphabets"},
     {"name": "segments", "path": "spec/Segments.tla + spec/MC_Segments.tla + harness/cmd/segments", "serves_properties": ["C17"],
      "kind_free_text": "two receive algorithms transcribed; all bounded chunkings checked by TLC and replayed on both real paths"},
     {"name": "frames", "path": "spec/Frames.tla + spec/MC_Frames.tla + harness/cmd/frames", "serves_properties": ["C02"],
